@@ -340,8 +340,10 @@ def build_jobs(pid, tier, seed):
                 sizes = json.load(f)
         except OSError:
             sizes = {}
-        cap = (60 if pid == 'C08' else 400) if quick else (120 if pid == 'C08' else 3000)
-        budget = 14 if quick else 10 ** 6
+        # (the product graph of two runs grows with the square of the single-run instance: a single-run instance of
+        #  3000 transitions took more than four hours and 12 GB here, hence the caps also for the thorough tier)
+        cap = (60 if pid == 'C08' else 400) if quick else (120 if pid == 'C08' else 700)
+        budget = 14 if quick else 80
         for name, p, cfgs in jobs:
             if budget <= 0:
                 break
@@ -349,7 +351,7 @@ def build_jobs(pid, tier, seed):
             base = [sizes[k] for k in sizes if k.split('#')[0] == shape]
             if tag not in ('aa', 'ab') or not base or max(base) > cap:
                 continue
-            cfgs.append(dict(policy=['model2', 400 if quick else 100000], overlap=(pid == 'C08'), snap=False))
+            cfgs.append(dict(policy=['model2', 400 if quick else 6000], overlap=(pid == 'C08'), snap=False))
             budget -= 1
         return jobs
     sel = select(progs, pid)
